@@ -22,6 +22,7 @@ func init() {
 	reg("C10", "C10.R5", "E1", "offsets are marked only by InputPlugin.Commit", 1, ruleWhoMarks)
 	reg("C10", "C10.R6", "E6", "an event carries the offset and leader epoch of the very record whose value it carries", 1, ruleConsumeIdentity)
 	reg("C10", "C10.R8", "E1", "only the output acknowledgement reaches InputPlugin.Commit: discards and holds never mark (same rule as C01.R2)", 4, ruleNotifyCallers)
+	reg("C10", "C10.R9", "E2", "what is acknowledged was sent: a batch that contains a deliverable event is handed to the send function (same rule as C19.R5 / C01.R11)", 1, ruleForEachShape)
 	reg("C10", "C10.R7", "E1", "only marked offsets reach the broker: AutoCommitMarks, and CommitMarkedOffsets as the only explicit commit", 2, ruleOnlyMarkedCommitted)
 }
 
@@ -94,6 +95,9 @@ func rulePackUnpack(c *Ctx, r *Rule) {
 		if strings.Contains(strings.ToLower(rt.String()), "int64") {
 			r.Ob(u.plus1, name+"|plus-one", u.fn.Pos(), "the offset marked for commit is the record's offset + 1 (the next record to read), computed in the unpacker")
 		}
+		// both directions are pure arithmetic: no value of the packed word is treated specially (a branch
+		// on one bit pattern — "0xFFFF means epoch -1" — misreads the records that legitimately carry it)
+		r.Ob(len(p.fn.Blocks) == 1 && len(u.fn.Blocks) == 1, name+"|straight-line", u.fn.Pos(), fmt.Sprintf("pack and unpack are straight-line arithmetic (%s has %d blocks, %s has %d)", c.fnName(p.fn), len(p.fn.Blocks), c.fnName(u.fn), len(u.fn.Blocks)))
 	}
 }
 
